@@ -45,9 +45,16 @@ def pubsub_script(draw):
         started.add(a)
         ops.append(["start", a])
     elif k == "clear":
-      # the fabric's registries are emptied (nothing in flight): every object has to subscribe again
+      # the fabric's registries are emptied (every object running, nothing in flight): every object
+      # has to subscribe again - and one of them does, to a signal it may have held before
+      for b in range(nao):
+        if b not in started:
+          started.add(b)
+          ops.append(["start", b])
       ops.append(["settle"])
       ops.append(["clear"])
+      ops.append(["subscribe", a, draw(st.sampled_from(SIGS)), draw(st.sampled_from(["fifo", "fifo", "lifo"])), where])
+      ops.append(["settle"])
     else:
       ops.append(["settle"])
   for a in range(nao):
